@@ -37,14 +37,14 @@ Has(o, c) == \E i \in 1..Len(o.checks) : o.checks[i] = c
 
 Failing(o, env) ==
   LET r == Ev(o.ast, env)
-      cust == SelectSeq(r.ev, LAMBDA x : x.k = "fn" /\ x.name \in DOMAIN env.funcs)
+      cust == CustomCalls(r.ev, env)
   IN (IF Has(o, "value") /\ ~OutcomeMatchesX(TopExpect(o.ast, env), o.out) THEN <<"value">> ELSE <<>>)
      \* the property's own oracle (C02, C03): the outcome of the same formula with the same bindings when run alone
      \o (IF Has(o, "solo") THEN (IF o.out.res # o.solo.res \/ o.out.err # o.solo.err THEN <<"differs_from_solo">> ELSE <<>>)
          ELSE <<>>)
-     \o (IF Has(o, "events") /\ ~(/\ Len(o.events) <= Len(r.ev)
-                                  /\ \A i \in 1..Len(o.events) : EventMatches(r.ev[i], o.events[i])
-                                  /\ (Len(o.events) = Len(r.ev) \/ (r.may /\ o.out.err # "")))
+     \o (IF Has(o, "events") /\ ~(/\ Len(o.events) <= Len(Pub(r.ev))
+                                  /\ \A i \in 1..Len(o.events) : EventMatches(Pub(r.ev)[i], o.events[i])
+                                  /\ (Len(o.events) = Len(Pub(r.ev)) \/ (r.may /\ o.out.err # "")))
          THEN <<"events">> ELSE <<>>)
      \o (IF Has(o, "calls") /\ ~(/\ Len(o.calls) <= Len(cust)
                                  /\ (Len(o.calls) = Len(cust) \/ (r.may /\ o.out.err # ""))
